@@ -809,7 +809,10 @@ pub fn main(args: &[String]) {
     let len = arg_u64(args, "--len", 40);
     let mut rng = Rng::new(seed);
     for i in 0..n {
-        let id_base = if rng.chance(60) { 40_000 + rng.range(0, 5000) as u64 } else { 0 };
+        // every fifth trace opens with the "late batch" recipe (below), which needs deal ids whose cron slot is not
+        // the start epoch itself
+        let recipe = i % 5 == 2;
+        let id_base = if rng.chance(60) || recipe { 40_000 + rng.range(0, 5000) as u64 } else { 0 };
         let m = Mkt::new_with_id_base(seed.wrapping_mul(1000) + i, id_base);
         begin(&mut t, &m);
         let mut calls = vec![json!({"a": "World", "idBase": id_base})];
@@ -818,6 +821,31 @@ pub fn main(args: &[String]) {
             let call = json!({"a": "AddBalance", "c": "x", "party": party, "amt": amt});
             t.line(&m.step(&call));
             calls.push(call);
+        }
+        if recipe {
+            // several deals published together, none activated; just after the last start epoch (before the cron
+            // reaches them) ONE SettleDealPayments call names them all
+            let epoch = m.project()["epoch"].as_i64().unwrap();
+            let k = 2 + rng.below(2) as i64;
+            let batch: Vec<Value> = (0..k).map(|j| {
+                let start = epoch + 3 + rng.range(0, 2);
+                json!({"d": {"c": "c1", "p": "m1", "start": start, "end": start + MIN_DUR + j, "price": *rng.pick(&[0, 1]),
+                             "pcol": *rng.pick(&[3, 9, 5]), "ccol": *rng.pick(&[0, 5]), "uid": j + 1}, "sigOK": true})
+            }).collect();
+            let latest = batch.iter().map(|b| b["d"]["start"].as_i64().unwrap()).max().unwrap();
+            let mut opening = vec![json!({"a": "Publish", "c": "w1", "batch": batch})];
+            opening.push(json!({"a": "Tick", "n": latest + 1 - epoch}));
+            for call in opening {
+                t.line(&m.step(&call));
+                calls.push(call);
+            }
+            let st = m.project();
+            let ids: Vec<i64> = st["prop"].as_array().unwrap().iter().map(|p| p["id"].as_i64().unwrap()).collect();
+            if !ids.is_empty() {
+                let call = json!({"a": "Settle", "c": "x", "ids": ids});
+                t.line(&m.step(&call));
+                calls.push(call);
+            }
         }
         for _ in 0..len {
             let call = random_call(&mut rng, &m);
